@@ -141,8 +141,7 @@ def modify_rules(ctx):
                fn=f.label, inst=f.qname)
 
 
-def reader_rules(ctx):
-    rid = "C03.reader"
+def reader_rules(ctx, rid="C03.reader"):
     ctx.rule(rid, "reader: increment of the counter selected by m_countingLeft precedes the load of m_readingLeft; "
              "returned pointer is the copy selected by that load; deleter bound to the incremented counter", floor=8)
     fs = lr_functions(ctx, "lock_shared")
@@ -218,8 +217,7 @@ def reader_rules(ctx):
                    fn=f.label, inst=f.qname)
 
 
-def deleter_rules(ctx):
-    rid = "C03.deleter"
+def deleter_rules(ctx, rid="C03.deleter"):
     ctx.rule(rid, "shared_deleter decrements the counter it was bound to iff the pointer is non-null; the handle "
              "type is a move-only unique_ptr to const", floor=4)
     fb = ctx.fb
